@@ -334,9 +334,9 @@ def generate(rs, tier):
     # no RNG draws inside cond/switch branches: under nn.cond the branches are traced one after the other on shared
     # rng counters, so a later branch receives a different key than the plain `if`; the property promises identical
     # draws only for remat (and call-site determinism for jit), so the generator avoids this corner (DESIGN.md)
-    body.append(dict(i='cond', name='cf', post=g.random() < 0.6, mod=gen_nested_sub(g, False) if g.random() < 0.4 else gen_sub(g, False, stats_ok=False, sow_ok=False)))
+    body.append(dict(i='cond', name='cf', post=g.random() < 0.8, mod=gen_nested_sub(g, g.random() < 0.7) if g.random() < 0.4 else gen_sub(g, g.random() < 0.7, stats_ok=False, sow_ok=False)))
   elif r < 0.35:
-    body.append(dict(i='switch', name='sw', post=g.random() < 0.6, mod=gen_nested_sub(g, False) if g.random() < 0.4 else gen_sub(g, False, stats_ok=False, sow_ok=False)))
+    body.append(dict(i='switch', name='sw', post=g.random() < 0.8, mod=gen_nested_sub(g, g.random() < 0.7) if g.random() < 0.4 else gen_sub(g, g.random() < 0.7, stats_ok=False, sow_ok=False)))
   elif r < 0.5:
     body.append(dict(i='while', name='wl', mod=gen_sub(g, False, stats_ok=False, sow_ok=False)))  # non-carry collections are read-only inside the loop body
   if g.random() < 0.3:
@@ -367,7 +367,7 @@ def generate(rs, tier):
       op = dict(op='init', seed=g.randrange(4), k=g.randrange(3), pred=g.random() < 0.5, idx=g.randrange(3), trips=g.randrange(0, 3))
     ops.append(op)
     last = op
-  return dict(engine='linenworld-twins', knobs=dict(spec=spec, jit_rng=jit_rng, batch=g.choice([1, 2]), mapv_init=g.random() < 0.1, ctl_preinit=g.random() < 0.9), ops=ops)
+  return dict(engine='linenworld-twins', knobs=dict(spec=spec, jit_rng=jit_rng, batch=g.choice([1, 2]), mapv_init=g.random() < 0.1, ctl_preinit=g.random() < 0.5), ops=ops)
 
 
 def gen_mut(g):
@@ -389,8 +389,7 @@ SHRINK_LISTS = ['ops']
 def signature(plan, v):
   k = plan['knobs']
   has_mapv_mut = any(i.get('lift') == 'mapv_mut' or (i.get('lift') == 'mapv_params' and i.get('has_rng')) for i in k['spec']['body'])
-  has_ctl = any(i['i'] in ('cond', 'switch') for i in k['spec']['body'])
-  return dict(mapv_mut_init=bool(k.get('mapv_init') and has_mapv_mut), init_inside_branch=bool(has_ctl and not k.get('ctl_preinit', True)))
+  return dict(mapv_mut_init=bool(k.get('mapv_init') and has_mapv_mut))
 
 
 def in_filter(f, col):
